@@ -96,7 +96,7 @@ def gen_plan(seed: int, run: int, tier: str) -> dict:
         "pool": rng.choice([1, 2, 3, 10]),
         "snapshot_interval": rng.choice([2, 5, 100]),
         "share_study": share_study,
-        "reuse_dicts": rng.random() < 0.4,
+        "reuse_dicts": rng.random() < 0.4,        "pickled_clients": rng.random() < 0.3,
     }
     # disk errors (journal file deployments): an fsync reports EIO although the record is
     # already in the file - the call fails, its effect is ambiguous
